@@ -18,7 +18,10 @@ EnvE == IF Ev.under = <<>> THEN FALSE ELSE Ev.under[1].e
 
 NonEmpty(cs) == SelectSeq(cs, LAMBDA c : Len(c.p) > 0)
 \* the observable outcome equals the machine's
-Matches == /\ Ev.rn = ret'.n /\ Ev.err = ret'.err
+\* io.ErrShortWrite and the underlying writer's error are fixed by the property; for a rejected Seek it only
+\* says "rejecting": any non-nil error is accepted there
+ErrMatches(logged, model) == IF model \in {"Whence", "Offset"} THEN logged # "nil" ELSE logged = model
+Matches == /\ Ev.rn = ret'.n /\ ErrMatches(Ev.err, ret'.err)
            /\ NonEmpty(Ev.under) = NonEmpty(calls')      \* (a call that offers no bytes may or may not be made)
            /\ (Ev.cur >= 0 => Ev.cur = cur')          \* the cursor itself, through the verif hook
            /\ Confined' /\ CursorNotBeforeBase'
